@@ -21,17 +21,118 @@ class Extractor:
         self.prims_used = set()
         self.classes = {}       # class name -> predicate descriptor (fn path or closure node)
         self.checks = []        # (fn path, what, node)
+        self.chains = {}        # fn path -> [{'g': grammar, 'bind': binding of the parsed value | None, 'app': application node}] of a let-chain body
 
     def fn_grammar(self, path):
         rec = self.facts.hir[path]
         self.cur = path
-        return self.block_grammar(rec['body'], rec['params'])
+        g = self.block_grammar(rec['body'], rec['params'])
+        if g[0] == 'unknown':
+            # not a combinator expression / let-chain: a parser written by hand.  Its grammar is read off its enumerated paths:
+            # what the remainder it returns is made of (see path_grammar)
+            g2 = self.path_grammar(path)
+            if g2 is not None:
+                return g2
+        return g
+
+    # ------------------------------------------------------------------ hand-written parser bodies
+    def path_grammar(self, path):
+        """The grammar of a parser function read off the paths of the abstract interpreter instead of its statements: on every
+        accepting path the function returns `Ok((rest, value))`; `rest` is a term that says which parsers (or prefix splits) were
+        applied to the input parameter, in which order - that sequence is what the function consumes, wherever the statements
+        that compute the *value* (loops, folds, lets) stand.  A path that answers an error although every parser of the chain
+        succeeded is a semantic rejection: the sequence is wrapped in ('check', .., 'by-hand').  None when the paths cannot be
+        read this way (the caller keeps the 'unknown' of the statement reading: fails closed)."""
+        import absx
+        rec = self.facts.hir[path]
+        if len(rec['params']) != 1:
+            return None
+        B = hirq.Body(self.facts, rec)
+        I = absx.Interp(self.facts, B, for_once=True)
+        I.carry_vecs = True
+        try:
+            outs = I.run()
+        except absx.TooManyPaths:
+            return None
+        inp = [('param', d['name']) for b, d in B.defs.items() if d['kind'] == 'param' and not d['proj']]
+        if len(inp) != 1:
+            return None
+        chains, errs = [], []
+        for o in outs:
+            v = o.val
+            if o.kind in ('val', 'ret') and v[0] == 'ctor' and v[1] == 'Ok' and len(v[2]) == 1 and v[2][0][0] == 'tuple' and len(v[2][0][1]) == 2:
+                ch = self.cursor_chain(v[2][0][1][0], inp[0], B)
+                if ch is None:
+                    return None
+                chains.append(ch)
+            elif o.kind in ('val', 'ret') and (v[0] == 'tryerr' or (v[0] == 'ctor' and v[1] == 'Err')):
+                errs.append(v)
+            else:
+                return None         # a panic, an unfinished loop, a value that is not a parser result
+        if not chains or any(repr([g for g, a in c]) != repr([g for g, a in chains[0]]) for c in chains[1:]):
+            return None
+        # an error path that propagates the failure of one of the chain's own parser applications (`?`) is that parser failing:
+        # the sequence fails there.  Every other error path rejects input the chain would have consumed: a semantic rejection
+        apps = {a for c in chains for g, a in c if a is not None}
+        rejects = [v for v in errs if not (v[0] == 'tryerr' and v[1] in apps)]
+        g = flat(('seq', [g for g, a in chains[0]])) if chains[0] else None
+        if g is None:
+            return None
+        if rejects:
+            self.checks.append((self.cur, 'by-hand', rec['body']))
+            g = ('check', g, 'by-hand')
+        return g
+
+    def cursor_chain(self, t, inp, B):
+        """[(grammar element, term of the parser application | None) ...] consumed between the input parameter and the remainder
+        term t; None if t is not such a term"""
+        if t == inp:
+            return []
+        ps = prefix_split(t)
+        if ps is not None:
+            cur, pred, role, one_or_more = ps
+            if role != 'rest':
+                return None
+            head = self.cursor_chain(cur, inp, B)
+            name = self.pred_class(pred, B)
+            if head is None or name is None:
+                return None
+            app = t[1][1] if t[1][0] == 'variant' else None
+            return head + [(('plus' if one_or_more else 'star', ('class', name)), app)]
+        # the remainder of a parser application: `(.0 of the Ok payload of  <parser>(cursor))`
+        if t[0] == 'field' and t[2] == '0' and t[1][0] == 'variant' and t[1][2] == 'Ok' and t[1][3] == 0 and t[1][1][0] == 'call':
+            app = t[1][1]
+            if app[1] == '<indirect>' and len(app[2]) == 2:
+                head = self.cursor_chain(app[2][1], inp, B)
+                node = B.by_id.get(app[3])
+                if head is None or node is None or node.get('k') != 'Call':
+                    return None
+                g = self.comb(node['f'])
+                return None if g[0] == 'unknown' else head + [(g, app)]
+            if app[1].startswith(self.prefix) and len(app[2]) == 1:
+                head = self.cursor_chain(app[2][0], inp, B)
+                return None if head is None else head + [(('ref', app[1]), app)]
+        return None
+
+    def pred_class(self, pred, B):
+        if pred[0] == 'fn':
+            self.classes[pred[1]] = ('fn', pred[1])
+            return pred[1]
+        if pred[0] == 'closure':
+            node = next((n for n in B.nodes if n['k'] == 'Closure' and n.get('def') == pred[1]), None)
+            if node is not None:
+                self.classes[pred[1]] = ('closure', node)
+                return pred[1]
+        return None
 
     # a function / closure body that parses its (single) input parameter
     def block_grammar(self, b, params):
         inp = [x[0] for p in params for x in hirq.pat_bindings(p)]
         if b['k'] != 'Block':
             return self.apply_grammar(b, inp)
+        top = b is self.facts.hir[self.cur]['body']      # the function's own body (not a closure inside a combinator expression)
+        if top:
+            self.chains[self.cur] = []
         seq = []
         cur = set(inp)
         for s in b['stmts']:
@@ -52,8 +153,12 @@ class Extractor:
                     return g
                 # the remainder is the first component of the bound tuple; the value binding names this element for guards
                 pat = s['pat']
-                if pat['k'] == 'PTuple' and len(pat['pats']) == 2 and pat['pats'][1]['k'] == 'Bind':
-                    g = ('bound', pat['pats'][1]['bind'], g)
+                vb = pat['pats'][1]['bind'] if (pat['k'] == 'PTuple' and len(pat['pats']) == 2 and pat['pats'][1]['k'] == 'Bind') else None
+                if top:
+                    self.chains[self.cur].append({'g': flat(g), 'bind': vb, 'app': init['e'],
+                                                  'unused': pat['k'] == 'PTuple' and len(pat['pats']) == 2 and pat['pats'][1]['k'] == 'Wild'})
+                if vb is not None:
+                    g = ('bound', vb, g)
                 seq.append(g)
                 if pat['k'] == 'PTuple' and pat['pats'] and pat['pats'][0]['k'] == 'Bind':
                     cur = {pat['pats'][0]['bind']}
@@ -133,14 +238,14 @@ class Extractor:
             return self.comb(a[0])
         if cal == 'nom::combinator::map_res':
             self.checks.append((self.cur, 'map_res', a[1]))
-            return ('check', self.comb(a[0]), 'map_res')
+            return ('check', self.comb(a[0]), 'map_res', a[1], callee_of(a[0]) if a[0].get('k') == 'Call' else None)
         if cal == 'nom::combinator::verify':
             inner = self.comb(a[0])
             if inner == ('class', 'any'):
                 name = self.class_name(a[1])
                 return ('class', name)
             self.checks.append((self.cur, 'verify', a[1]))
-            return ('check', inner, 'verify')
+            return ('check', inner, 'verify', a[1], callee_of(a[0]) if a[0].get('k') == 'Call' else None)
         if cal in ('nom::bytes::complete::tag', 'nom::bytes::streaming::tag'):
             v = hirq.const_eval(self.facts, a[0])
             if isinstance(v, str):
@@ -165,6 +270,28 @@ class Extractor:
         return 'unknown-predicate'
 
 
+def prefix_split(t):
+    """Library model, stated once: terms that denote one half of "the input split after its longest prefix of bytes satisfying a
+    predicate".  Returns (input term, predicate term, 'taken' | 'rest', at-least-one) or None.
+      * nom `take_while(p)(s)` = Ok((rest, taken)): taken is the longest prefix of s whose bytes satisfy p, rest what follows; it
+        never fails (`take_while1` fails when taken would be empty - the sequence then fails like any parser of the chain);
+      * `s.split_at(s.iter().take_while(p).count())` = (taken, rest): Iterator::take_while yields the elements before the first
+        one that fails p and count() counts them, so the split point is the length of that same longest prefix (<= s.len())."""
+    if t[0] != 'field' or t[2] not in ('0', '1'):
+        return None
+    b = t[1]
+    if b[0] == 'variant' and b[2] == 'Ok' and b[3] == 0 and b[1][0] == 'call' and b[1][1] == '<indirect>' and len(b[1][2]) == 2:
+        fv, cur = b[1][2]
+        if fv[0] == 'call' and fv[1] in ('nom::bytes::complete::take_while', 'nom::bytes::complete::take_while1') and len(fv[2]) == 1:
+            return cur, fv[2][0], ('rest' if t[2] == '0' else 'taken'), fv[1].endswith('1')
+    if b[0] == 'call' and b[1].endswith('::split_at') and b[1].startswith('core::slice::') and len(b[2]) == 2:
+        cur, n = b[2]
+        if n[0] == 'call' and n[1] == 'core::iter::traits::iterator::Iterator::count' and len(n[2]) == 1:
+            tw = n[2][0]
+            if tw[0] == 'call' and tw[1] == 'core::iter::traits::iterator::Iterator::take_while' and len(tw[2]) == 2 and tw[2][0] == cur:
+                return cur, tw[2][1], ('taken' if t[2] == '0' else 'rest'), False
+    return None
+
 def flat(g):
     if g[0] == 'bound':
         return ('bound', g[1], flat(g[2]))
@@ -182,7 +309,7 @@ def flat(g):
     if g[0] in ('star', 'plus', 'opt', 'peek'):
         return (g[0], flat(g[1]))
     if g[0] == 'check':
-        return ('check', flat(g[1]), g[2])
+        return ('check', flat(g[1])) + tuple(g[2:])
     if g[0] == 'alt':
         return ('alt', [flat(x) for x in g[1]])
     return g
@@ -336,13 +463,58 @@ def _guard_true(facts, cond, present):
             return present[b] == (cond['name'] == 'is_some')
     raise NoNormalForm('guard condition outside is_some()/is_none() of optional parts')
 
-def language(facts, g, lookup, rec, classmap, depth=0):
-    """set of tuples of atoms"""
+_VERDICTS = {}
+
+def closure_verdict(facts, node, what, env, arg):
+    """What the acceptance test of a `verify` / `map_res` says when it is applied to `arg` with the values in env (binding ->
+    term) for the locals it captures: True (accepts) / False (rejects) / None (not decided: depends on what was parsed, or not
+    evaluable).  Evaluated by the abstract interpreter on the closure's HIR; exact on literals."""
+    import absx
+    if node is None or node.get('k') != 'Closure':
+        return None
+    key = (id(node), what, tuple(sorted(env.items())), arg)
+    if key in _VERDICTS:
+        return _VERDICTS[key]
+    owner = node['def'].rsplit('::{closure', 1)[0]
+    while owner not in facts.hir and '::{closure' in owner:
+        owner = owner.rsplit('::{closure', 1)[0]
+    res = None
+    if owner in facts.hir:
+        B = hirq.Body(facts, facts.hir[owner])
+        I = absx.Interp(facts, B)
+        I.exact_seqs = True         # the empty list an empty `many0` yields is a known sequence
+        try:
+            outs = I.apply_closure(('closure', node['def']), [arg], absx.St(dict(env)), node)
+        except absx.TooManyPaths:
+            outs = None
+        verdicts = set()
+        for o in outs or ():
+            v = o.val
+            if o.kind not in ('val', 'ret'):
+                verdicts.add(None)
+            elif what == 'verify':
+                verdicts.add(True if v == absx.TRUE else False if v == absx.FALSE else None)
+            else:
+                verdicts.add(True if (v[0] == 'ctor' and v[1] == 'Ok') else False if (v[0] == 'ctor' and v[1] == 'Err') else None)
+        if len(verdicts) == 1:
+            res = verdicts.pop()
+    _VERDICTS[key] = res
+    return res
+
+def _unbound(g):
+    while g[0] == 'bound':
+        g = g[2]
+    return g
+
+def language(facts, g, lookup, rec, classmap, depth=0, env=None):
+    """set of tuples of atoms.  env: binding -> literal term of the values chosen so far in the enclosing sequences (the literal an
+    alternative of literals matched): an acceptance test that only looks at those is decided instead of kept as an opaque check."""
     if depth > 60:
         raise NoNormalForm('expansion too deep')
+    env = env or {}
     k = g[0]
     if k == 'bound':
-        return language(facts, g[2], lookup, rec, classmap, depth)
+        return language(facts, g[2], lookup, rec, classmap, depth, env)
     if k == 'lit':
         return {tuple(('b', x) for x in g[1])}
     if k == 'class':
@@ -355,13 +527,32 @@ def language(facts, g, lookup, rec, classmap, depth=0):
         body = lookup(n)
         if body is None:
             raise NoNormalForm('reference to an unknown rule ' + n)
-        return language(facts, body, lookup, rec, classmap, depth + 1)
+        return language(facts, body, lookup, rec, classmap, depth + 1)          # a function body sees its own bindings only
     if k in ('star', 'plus'):
-        return {((k, frozenset(language(facts, g[1], lookup, rec, classmap, depth + 1))),)}
+        inner = language(facts, g[1], lookup, rec, classmap, depth + 1, env)
+        if not (inner - {()}):
+            # nothing (or only the empty string) can be repeated: the repetition matches the empty string - `plus` only if its
+            # body does
+            return {()} if (k == 'star' or () in inner) else set()
+        return {((k, frozenset(inner)),)}
     if k == 'check':
-        return {(('check', '', frozenset(language(facts, g[1], lookup, rec, classmap, depth + 1))),)}
+        inner = language(facts, g[1], lookup, rec, classmap, depth + 1, env)
+        node = g[3] if len(g) > 3 else None
+        if not inner:
+            return set()
+        # a test that does not look at what was parsed (only at values fixed earlier in the sequence) is decided here ...
+        v = closure_verdict(facts, node, g[2], env, ('param', '#parsed'))
+        # ... and so is a test that only the empty repetition can reach: it sees the one value an empty `many0` yields, the empty
+        # vector (many0 only: a fold_many0 yields its initial accumulator, whatever that is)
+        if v is None and inner == {()} and _unbound(g[1])[0] == 'star' and len(g) > 4 and g[4] == 'nom::multi::many0':
+            v = closure_verdict(facts, node, g[2], env, ('vec', ()))
+        if v is True:
+            return inner
+        if v is False:
+            return set()
+        return {(('check', '', frozenset(inner)),)}
     if k == 'opt':
-        return {()} | language(facts, g[1], lookup, rec, classmap, depth + 1)
+        return {()} | language(facts, g[1], lookup, rec, classmap, depth + 1, env)
     if k == 'peek':
         # a lookahead only restricts when an optional part is taken; the set of sequences is compared without it (what it
         # costs or saves is decided by pegcommit on the PEG reading)
@@ -369,10 +560,10 @@ def language(facts, g, lookup, rec, classmap, depth=0):
     if k == 'alt':
         out = set()
         for x in g[1]:
-            out |= language(facts, x, lookup, rec, classmap, depth + 1)
+            out |= language(facts, x, lookup, rec, classmap, depth + 1, env)
         return out
     if k == 'seq':
-        combos = [((), {})]          # (atoms so far, presence of bound optional parts)
+        combos = [((), {})]          # (atoms so far, what is known of the bound parts: presence of an optional part / the literal matched)
         for el in g[1]:
             nxt = []
             if el[0] == 'guard':
@@ -383,12 +574,21 @@ def language(facts, g, lookup, rec, classmap, depth=0):
                 continue
             bind = el[1] if el[0] == 'bound' else None
             inner = el[2] if el[0] == 'bound' else el
-            if inner[0] == 'opt' and bind is not None:
-                alts = [((), False)] + [(t, True) for t in language(facts, inner[1], lookup, rec, classmap, depth + 1)]
-            else:
-                alts = [(t, None) for t in language(facts, inner, lookup, rec, classmap, depth + 1)]
+            lits = [inner] if inner[0] == 'lit' else inner[1] if (inner[0] == 'alt' and all(x[0] == 'lit' for x in inner[1])) else None
+            memo = {}
             for atoms, pres in combos:
-                for t, p in alts:
+                # the values fixed so far that a later acceptance test may consult: the literal a bound alternative of literals matched
+                env2 = dict(env)
+                env2.update({b: ('lit', v) for b, v in pres.items() if isinstance(v, bytes)})
+                ek = tuple(sorted(env2.items()))
+                if ek not in memo:
+                    if inner[0] == 'opt' and bind is not None:
+                        memo[ek] = [((), False)] + [(t, True) for t in language(facts, inner[1], lookup, rec, classmap, depth + 1, env2)]
+                    elif bind is not None and lits is not None:
+                        memo[ek] = [(tuple(('b', c) for c in x[1]), bytes(x[1])) for x in lits]
+                    else:
+                        memo[ek] = [(t, None) for t in language(facts, inner, lookup, rec, classmap, depth + 1, env2)]
+                for t, p in memo[ek]:
                     pr = pres if p is None else dict(pres, **{bind: p})
                     nxt.append((atoms + t, pr))
             combos = nxt
@@ -409,7 +609,7 @@ def show_seq(t):
         elif a[0] == 'r':
             out.append(' %s ' % a[1])
         elif a[0] in ('star', 'plus'):
-            out.append('(%s)%s' % ('|'.join(sorted(show_seq(x) for x in a[1]))[:40], '*' if a[0] == 'star' else '+'))
+            out.append('(%s)%s' % ('|'.join(sorted(show_seq(x) for x in a[1]))[:160], '*' if a[0] == 'star' else '+'))
         else:
-            out.append('{%s}' % '|'.join(sorted(show_seq(x) for x in a[2]))[:40])
+            out.append('{%s}' % '|'.join(sorted(show_seq(x) for x in a[2]))[:160])
     return ''.join(out)
